@@ -164,6 +164,27 @@ static int svc_inv(void)
     return 1;
 }
 
+/* the same for the post-state: a service may have been released (slot NULL), ghosts of
+ * requests that left the table no longer count */
+static int svc_inv_post(void)
+{
+    unsigned k, j;
+    for (k = 0; k < NSVC; k++) {
+        struct iauth_xquery_service *sv = iauth_xquery_services.vec[k];
+        unsigned need = 0;
+        if (!sv) continue;
+        if (sv != SV[k]) return 0;
+        for (j = 0; j < NREQ; j++) {
+            struct iauth_request *r = iauth_find_request(G[j].id);
+            if (r && r == R[j] && (CL[j]->ref_mask & (1u << k))) need++;
+        }
+        if (sv->refs < need) return 0;
+        if ((unsigned)sv->type > COMBINED) return 0;
+        if (!sv->configured && sv->refs == 0) return 0;
+    }
+    return 1;
+}
+
 /* ------------------------------------------------------------------ */
 static void build_state(void)
 {
@@ -294,8 +315,12 @@ struct obs {
     unsigned n_C[2], n_M[2], n_U[2];
     const char *k_text[2], *C_text[2], *M_text[2];
     const char *addr_used[2]; unsigned port_used[2]; int addr_ok[2];
-    struct vp_rec xq[2][NSVC];      /* last query text per service, for the target instance */
-    unsigned xq_n[2][NSVC];
+    /* query texts per service for the target instance, copied when the line is written
+     * (arguments may live on the sender's stack): [0] CHECK, [1] LOGIN/LOGIN2, [2] MORE */
+    char xq_fmt0[NSVC][3];          /* first character of the inner format, 0 if none */
+    unsigned xq_nargs[NSVC][3];
+    char xq_arg[NSVC][3][5][14];
+    unsigned xq_n[NSVC];
 };
 static struct obs O;
 static int extra_id = -1000;
@@ -364,9 +389,17 @@ void vp_on_line(const struct vp_line *l)
         for (j = 0; j < NSVC; j++)
             if (str_eq(sname, svc_name[j])) {
                 O.queried[who] |= 1u << j;
-                if (l->have_inner) {
-                    O.xq[who][j] = l->inner;
-                    O.xq_n[who][j]++;
+                if (l->have_inner && who == 0) {
+                    unsigned slot = l->inner.fmt[0] == 'C' ? 0 : l->inner.fmt[0] == 'L' ? 1 : 2, a, q;
+                    O.xq_n[j]++;
+                    O.xq_fmt0[j][slot] = l->inner.fmt[5] == '2' ? '2' : l->inner.fmt[0];
+                    O.xq_nargs[j][slot] = l->inner.nargs;
+                    for (a = 0; a < 5 && a < l->inner.nargs; a++) {
+                        const char *sp = l->inner.a[a].s;
+                        for (q = 0; q < 13 && sp[q]; q++)
+                            O.xq_arg[j][slot][a][q] = sp[q];
+                        O.xq_arg[j][slot][a][q] = '\0';
+                    }
                 }
             }
     } else
